@@ -88,6 +88,13 @@ func (ch LocalCache) PathForChecksum(checksum string) (string, error) {
 	if len(checksum) < 3 {
 		return "", InvalidChecksumError{checksum: checksum}
 	}
+	// A checksum is never a path: anything but letters and digits (path
+	// separators, dots) could make the result point outside the cache.
+	for _, r := range checksum {
+		if !(('0' <= r && r <= '9') || ('a' <= r && r <= 'z') || ('A' <= r && r <= 'Z')) {
+			return "", InvalidChecksumError{checksum: checksum}
+		}
+	}
 	return filepath.Join(checksum[:2], checksum[2:]), nil
 }
 
